@@ -45,6 +45,9 @@ def api_family(rp, only=None):
         val = "True" if ret == "Bool" else "41"
         progs.append((f"operator-{k}", f"class V(def x: Int)\n    def {sym} (self, other: V) -> {ret} => {val}",
                       f"a, b = V(1), V(2); print({use}, hasattr(V, '{dunder}'))", f"{val} True"))
+    for k, (dunder, use) in {"Geq": ("__ge__", "a >= b"), "Leq": ("__le__", "a <= b"), "Neq": ("__ne__", "a != b")}.items():
+        progs.append((f"operator-{k}", f"class V(def x: Int)\n    def {dunder}(self, other: V) -> Bool => True\n    def > (self, other: V) -> Bool => False",
+                      f"a, b = V(1), V(2); print({use}, hasattr(V, '{dunder}'), a > b)", "True True False"))
     bad, n = [], 0
     for role, src, caller, want in progs:
         if only and not any(role.startswith(o) for o in only):
